@@ -67,8 +67,10 @@ let eval = function
           run_hist Coin.toy_coin_step Coin.toy_grind
             (Coin.toy_coin_new (ebytes field) elems)
             (Stdlib.List.map (parse_op mkd field) ops)
-      | "w0" | "w1" | "w2" | "w3" | "w4" ->
-          let mode = z (Stdlib.String.sub hasher 1 1) in
+      | "w0" | "w1" | "w2" | "w3" | "w4" | "w5" ->
+          (* w5: gap-candidate mode, the Gallina mode number encodes the base field (5 f64, 6 f62, 7 f128) *)
+          let mode = if hasher = "w5" then z (match field with "f64" -> "5" | "f62" -> "6" | _ -> "7")
+                     else z (Stdlib.String.sub hasher 1 1) in
           run_hist (Coin.wide_step mode) (Coin.wide_grind mode)
             (Coin.wide_coin_new mode (ebytes field) elems)
             (Stdlib.List.map (parse_op (fun l -> l) field) ops)
